@@ -161,6 +161,19 @@ func c14(r *rt.Run) {
 			}
 		}
 	}
+	// an operator and a variable annotation on the same literal: the operator selects, the annotation
+	// enumerates the stored intervals of the selected atoms
+	for _, op := range []string{"<-", "[-", "<+", "[+"} {
+		for _, d1 := range []int64{0, 1, 2} {
+			for _, d2 := range []int64{1, 2, 3} {
+				if d1 > d2 {
+					continue
+				}
+				progs = append(progs, c14Prog{src: c14Decls + fmt.Sprintf("h(X,S,E) :- %s[%ds, %ds] a(X)@[S,E].\n", op, d1, d2), op: op, d1: d1, d2: d2, kind: "operator-annot"})
+			}
+		}
+		progs = append(progs, c14Prog{src: c14Decls + fmt.Sprintf("h(X)@[S,E] :- %s[0s, 1s] a(X)@[S,E].\n", op), op: op, d1: 0, d2: 1, kind: "operator-annot-head"})
+	}
 	progs = append(progs,
 		c14Prog{src: c14Decls + "h(X,S,E) :- a(X)@[S,E].\n", kind: "annot-vars"},
 		c14Prog{src: c14Decls + "h(X)@[S,E] :- a(X)@[S,E].\n", kind: "head-copy"},
@@ -186,7 +199,7 @@ func c14(r *rt.Run) {
 		f := factSets[fi]
 		for pi := range progs {
 			for T := int64(0); T <= 6; T++ {
-				if progs[pi].kind != "operator" && progs[pi].kind != "head-now" && T != 3 {
+				if progs[pi].kind != "operator" && !strings.HasPrefix(progs[pi].kind, "operator-annot") && progs[pi].kind != "head-now" && T != 3 {
 					continue // annotation programs do not depend on the evaluation time
 				}
 				c14Case(r, f, &progs[pi], T)
@@ -195,7 +208,7 @@ func c14(r *rt.Run) {
 	})
 	c14Relations(r)
 	r.Finish("facts: every set of <= 2 intervals (28 finite + 4 half-bounded on a 0..6 s timeline; quick: half of the pairs) for a(1) plus a(2)@[3,3], coalesced; programs: 4 operators x bounds {now,0s..3s}x{0s..3s} (ordered and swapped) at every evaluation time 0..6 s, " +
-		"variable annotations, head annotations (copy, now, open, fixed), two-rule chains in both clause orders; interval relations: every ordered pair of the 15 intervals over 0..4 x 9 relations; non-trivial = cases whose expected result is non-empty")
+		"an operator combined with a variable annotation on the same literal (4 operators x 8 windows, into head arguments and into a head annotation), variable annotations, head annotations (copy, now, open, fixed), two-rule chains in both clause orders; interval relations: every ordered pair of the 15 intervals over 0..4 x 9 relations; non-trivial = cases whose expected result is non-empty")
 }
 
 func c14Case(r *rt.Run, f c14Facts, p *c14Prog, T int64) {
@@ -279,6 +292,47 @@ func c14Case(r *rt.Run, f c14Facts, p *c14Prog, T int64) {
 			r.Add("distinct_nontrivial", 1)
 		}
 		r.Outcome(fmt.Sprint(keysOf(got)))
+	case "operator-annot", "operator-annot-head":
+		past := p.op == "<-" || p.op == "[-"
+		box := p.op == "[-" || p.op == "[+"
+		win := iv{T + p.d1, T + p.d2}
+		if past {
+			win = iv{T - p.d2, T - p.d1}
+		}
+		want := map[string]bool{}
+		for x, ivs := range stored {
+			for _, c := range ivs {
+				if box && c.s <= win.s && win.e <= c.e || !box && c.s <= win.e && win.s <= c.e {
+					want[fmt.Sprintf("%d%s", x, c)] = true
+				}
+			}
+		}
+		got := map[string]bool{}
+		if p.kind == "operator-annot" {
+			store.GetFacts(ast.NewQuery(ast.PredicateSym{Symbol: "h", Arity: 3}), func(a ast.Atom) error {
+				n, _ := a.Args[0].(ast.Constant).NumberValue()
+				s, err1 := a.Args[1].(ast.Constant).TimeValue()
+				e, err2 := a.Args[2].(ast.Constant).TimeValue()
+				if err1 != nil || err2 != nil {
+					got["non-time-binding:"+a.String()] = true
+					return nil
+				}
+				got[fmt.Sprintf("%d%s", n, c14FromNanos(s, e))] = true
+				return nil
+			})
+		} else {
+			ts.GetAllFacts(ast.NewQuery(ast.PredicateSym{Symbol: "h", Arity: 1}), func(tf factstore.TemporalFact) error {
+				n, _ := tf.Atom.Args[0].(ast.Constant).NumberValue()
+				got[fmt.Sprintf("%d%s", n, c14FromNanos(factstore.GetStartTime(tf.Interval), factstore.GetEndTime(tf.Interval)))] = true
+				return nil
+			})
+		}
+		if d := setDiff(want, got); d != "" {
+			r.Violate("operator-with-annotation-"+opName(p.op), fmt.Sprintf("facts %s, T=%ds, %s: the annotation variables must enumerate the stored intervals of the atoms the operator selects: %s", f.text, T, strings.TrimSpace(strings.TrimPrefix(p.src, c14Decls)), d), w)
+		}
+		if len(want) > 0 {
+			r.Add("distinct_nontrivial", 1)
+		}
 	case "annot-vars":
 		got := map[string]bool{}
 		store.GetFacts(ast.NewQuery(ast.PredicateSym{Symbol: "h", Arity: 3}), func(a ast.Atom) error {
